@@ -369,3 +369,38 @@ func paramSummary(cfg *gen.Cfg) []string {
 	}
 	return out
 }
+
+// enumAlphabet15 is the operation alphabet of the exhaustive C15 family (configuration "cenum").
+var enumAlphabet15 = []Op{
+	{Kind: "GetParam", Name: "p1"}, {Kind: "GetParam", Name: "p2"}, {Kind: "GetParam", Name: "p3"},
+	{Kind: "Get", Name: "s1"}, {Kind: "Get", Name: "s2"}, {Kind: "Get", Name: "s3"},
+	{Kind: "OvParam", Name: "p1", VKind: "value", V: "real"}, {Kind: "OvParam", Name: "p1", VKind: "param", V: "p3"},
+	{Kind: "OvParam", Name: "p3", VKind: "provider", VI: 42}, {Kind: "OvSvc", Name: "s1", VI: 500},
+}
+
+// EnumCount15 is the number of histories of length 1..4 over the alphabet.
+func EnumCount15() int {
+	n, k := 0, 1
+	for l := 1; l <= 4; l++ {
+		k *= len(enumAlphabet15)
+		n += k
+	}
+	return n
+}
+
+// enumHistory15 maps an index to its history (all of length 1, then 2, ...).
+func enumHistory15(idx int) []Op {
+	k := len(enumAlphabet15)
+	l, block := 1, k
+	for idx >= block {
+		idx -= block
+		l++
+		block *= k
+	}
+	ops := []Op{{Kind: "New"}}
+	for i := 0; i < l; i++ {
+		ops = append(ops, enumAlphabet15[idx%k])
+		idx /= k
+	}
+	return ops
+}
